@@ -200,10 +200,12 @@ class Executor:
 
     # ==================================================================
     def run(self, spec: HandlerSpec, kind: Optional[str], config: Dict[str, str], max_iter=1,
-            extra_env=None, inline=True) -> List[Path]:
+            extra_env=None, inline=True, no_inline=None, only_inline=None) -> List[Path]:
         self.spec = spec
         self.inline = inline
         self.undecided = {}        # factory parameter -> {'truth'|'bool'|'none'}: tests the configuration did not decide
+        self.no_inline = set(no_inline or ())
+        self.only_inline = None if only_inline is None else set(only_inline)
         st = St.__new__(St)
         env = {}
         sc = spec.module.scopes[spec.fn]
@@ -952,6 +954,18 @@ class Executor:
             elt = node.elt if not isinstance(node, ast.DictComp) else node.value
             n0 = len(s2.trace)
             res = list(self.eval(elt, s2))
+            if len(res) > 1 and len(res) <= 32 and not any(is_raise(t) for _, t in res):
+                # the element is computed along several paths (a formatter with a case analysis): the alternatives are
+                # kept, each with the decisions that select it; an alternative with effects is not representable
+                alts = []
+                for s3, t in res:
+                    if any(e.k in ("emit", "store", "ucall", "mutate", "substore", "subdel", "attrstore", "nonlocal", "topo")
+                           or (e.k == "call" and e.d.get("unresolved")) for e in s3.trace[n0:]):
+                        raise ValueError
+                    alts.append(("alt", tuple((e.test, e.outcome) for e in s3.trace[n0:] if e.k == "decision"), t))
+                st.uid = max(st.uid, max(s3.uid for s3, _ in res))
+                yield st, base + (("alts",) + tuple(alts), tuple(iters))
+                return
             if len(res) != 1 or is_raise(res[0][1]):
                 raise ValueError
             # effects of the element expression happen once per element: they are recorded once, marked in_comp
@@ -1284,6 +1298,10 @@ class Executor:
                             if ks is not None:
                                 r = st.kind in ks
                                 return r if op == "In" else (not r)
+            if op in ("In", "NotIn") and b[0] in ("list", "tuple", "set") and _concrete(a) and all(_concrete(x) for x in b[1:]):
+                hit = any(self.const_truth(("cmp", "Eq", a, x), st) for x in b[1:])
+                if all(self.const_truth(("cmp", "Eq", a, x), st) is not None for x in b[1:]):
+                    return hit if op == "In" else (not hit)
             if op in ("In", "NotIn") and b[0] == "dict":
                 hit = self._dict_lookup(b, a, st)
                 if hit is not None:
@@ -1471,7 +1489,9 @@ class Executor:
         if h == "func":
             fn, fmod = ft[1], ft[2]
             active = [f.fn for f in st.frames]
-            if self.inline and len(st.frames) <= MAX_INLINE_DEPTH and fn not in active and not _is_generator(fn):
+            if self.inline and len(st.frames) <= MAX_INLINE_DEPTH and fn not in active and not _is_generator(fn) \
+                    and fn not in getattr(self, "no_inline", ()) \
+                    and (getattr(self, "only_inline", None) is None or fn in self.only_inline):
                 yield from self._inline(node, fn, fmod, args, kwargs, st)
                 return
         if h == "lambda" and self.inline and len(st.frames) <= MAX_INLINE_DEPTH and ft[1] not in [f.fn for f in st.frames]:
